@@ -306,6 +306,88 @@ impl ChipEnv for Env127 {
     }
 }
 
+/// LR1110: 16-bit opcodes; the response of a command is read in a separate read-only transaction that starts
+/// with Stat1.  With no response pending a read returns Stat1, Stat2 and the 32-bit interrupt status.
+pub struct EnvLr {
+    pub buf: [u8; 256],
+    pub status: u8,
+    pub rxlen: u8,
+    pub rxoff: u8,
+    pub irq: u32,
+    pub pkt: [u8; 3],
+    /// command whose response is pending
+    pending: Option<Vec<u8>>,
+}
+impl EnvLr {
+    pub fn new() -> Self {
+        let mut buf = [0u8; 256];
+        for (i, b) in buf.iter_mut().enumerate() {
+            *b = pat(i);
+        }
+        EnvLr { buf, status: 0x04, rxlen: 0, rxoff: 0, irq: 0, pkt: [0; 3], pending: None }
+    }
+}
+impl ChipEnv for EnvLr {
+    fn read(&mut self, w: &[u8], r: &mut [u8]) {
+        r.fill(0);
+        if w.iter().any(|b| *b != 0) {
+            return; // the LR11xx drives nothing meaningful while a command is being written
+        }
+        if w.is_empty() {
+            // first byte of a read transaction: Stat1; without a pending response Stat2 and IrqStatus follow
+            if let Some(b) = r.first_mut() {
+                *b = self.status;
+            }
+            if self.pending.is_none() {
+                let f = self.irq.to_be_bytes();
+                for (j, b) in r.iter_mut().enumerate().skip(2) {
+                    *b = f.get(j - 2).copied().unwrap_or(0);
+                }
+            } else if r.len() > 1 {
+                let cmd = self.pending.take().unwrap();
+                self.answer(&cmd, &mut r[1..]);
+            }
+            return;
+        }
+        // the bytes after Stat1: the response of the pending command
+        if let Some(cmd) = self.pending.take() {
+            self.answer(&cmd, r);
+        }
+    }
+    fn commit(&mut self, w: &[u8], had_read: bool) {
+        if had_read || w.len() < 2 {
+            return;
+        }
+        let op = ((w[0] as u16) << 8) | w[1] as u16;
+        // commands answered in the next read transaction (GetVersion, GetErrors, ReadBuffer8, GetRxBufferStatus,
+        // GetPktStatus, GetRssiInst, ...)
+        self.pending = if matches!(op, 0x0101 | 0x010D | 0x0106 | 0x0108 | 0x010A | 0x0201..=0x0205 | 0x0230) { Some(w.to_vec()) } else { None };
+    }
+}
+impl EnvLr {
+    fn answer(&self, cmd: &[u8], r: &mut [u8]) {
+        let op = ((cmd[0] as u16) << 8) | cmd[1] as u16;
+        match op {
+            0x0203 => {
+                for (j, b) in r.iter_mut().enumerate() {
+                    *b = [self.rxlen, self.rxoff].get(j).copied().unwrap_or(0);
+                }
+            }
+            0x010A if cmd.len() >= 4 => {
+                for (j, b) in r.iter_mut().enumerate() {
+                    *b = self.buf[(cmd[2] as usize + j) % 256];
+                }
+            }
+            0x0204 => {
+                for (j, b) in r.iter_mut().enumerate() {
+                    *b = self.pkt.get(j).copied().unwrap_or(0);
+                }
+            }
+            _ => {}
+        }
+    }
+}
+
 // ------------------------------------------------------------------ helpers
 
 fn txns_json(log: &[Txn]) -> Value {
@@ -336,6 +418,20 @@ fn new_1262(spi: &Spi<Env126>) -> R126 {
         spi.clone(),
         Iv::new(),
         sx126x::Config { chip: sx126x::Sx1262, tcxo_ctrl: None, use_dcdc: false, rx_boost: false },
+    )
+}
+pub type RLr = lora_phy::lr1110::Lr1110<Spi<EnvLr>, Iv>;
+fn new_lr(spi: &Spi<EnvLr>) -> RLr {
+    lora_phy::lr1110::Lr1110::new(
+        spi.clone(),
+        Iv::new(),
+        lora_phy::lr1110::Config {
+            pa_selection: lora_phy::lr1110::PaSelection::Hp,
+            dio_as_rf_switch: None,
+            tcxo_ctrl: None,
+            use_dcdc: false,
+            rx_boost: false,
+        },
     )
 }
 fn new_1276(spi: &Spi<Env127>, tx_boost: bool) -> R127<sx127x::Sx1276> {
@@ -411,6 +507,15 @@ fn env126_for(c: &FetchCase) -> Env126 {
     e.irq = 0x0002; // RxDone
     e.pkt = [120, 20, 118];
     e.regs.insert(0x0702, c.cfglen); // the chip's payload-length register holds the configured length
+    e
+}
+fn envlr_for(c: &FetchCase) -> EnvLr {
+    let mut e = EnvLr::new();
+    e.status = c.status;
+    e.rxlen = c.replen;
+    e.rxoff = c.off;
+    e.irq = 0x08; // RxDone
+    e.pkt = [120, 20, 118];
     e
 }
 fn env127_for(c: &FetchCase) -> Env127 {
@@ -491,6 +596,14 @@ fn run_fetch(chip: &str, path: &str, c: &FetchCase, canary: u8) -> FetchOut {
                 _ => fetch_lorawan(new_1262(&spi), c, canary, &|| {}),
             }
         }
+        "lr1110" => {
+            let spi = Spi::new(envlr_for(c));
+            match path {
+                "direct" => fetch_direct(&mut new_lr(&spi), c, canary),
+                "lora" => fetch_lora(new_lr(&spi), c, canary, &|| {}),
+                _ => fetch_lorawan(new_lr(&spi), c, canary, &|| {}),
+            }
+        }
         "sx1276" | "sx1272" => {
             let spi = Spi::new(env127_for(c));
             let s2 = spi.clone();
@@ -547,7 +660,7 @@ pub fn vh_fetch(a: &Args) {
         println!("events={} cases=1", out.finish());
         return;
     }
-    for chip in ["sx1262", "sx1276", "sx1272"] {
+    for chip in ["sx1262", "sx1276", "sx1272", "lr1110"] {
         if !sel(a, "chips", chip) {
             continue;
         }
@@ -571,11 +684,15 @@ pub fn vh_fetch(a: &Args) {
                 } else {
                     vec![0x24, 0x2A]
                 }
+            } else if chip == "lr1110" {
+                // Stat1 bits 3..1: 0 CMD_FAIL, 1 CMD_PERR, 2 CMD_OK, 3 CMD_DAT; bit 0 = interrupt pending
+                if path == "direct" { vec![0x04, 0x05, 0x06, 0x07, 0x00, 0x01, 0x02, 0x03] } else { vec![0x04, 0x06] }
             } else {
                 vec![0]
             };
-            // the LoRaWAN adapter always receives with an explicit header
-            let hdrs: &[bool] = if path == "lorawan" { &[false] } else { &[false, true] };
+            // the LoRaWAN adapter always receives with an explicit header; so does the recorded LR1110 (what that
+            // chip reports as the length of an implicit-header packet is not modelled)
+            let hdrs: &[bool] = if path == "lorawan" || chip == "lr1110" { &[false] } else { &[false, true] };
             for &hdr in hdrs {
                 for &bufsz in &bufsizes {
                     for &status in &statuses {
